@@ -340,17 +340,6 @@ fn run(ctx: &mut Ctx) {
                         );
                     }
                 }
-                // errors that carry a number must show it
-                let shows_number = match &e {
-                    DecodeError::UnknownMessageType(v) | DecodeError::InvalidResultCodeErrorType(v) | DecodeError::InvalidAVPLength(v) | DecodeError::UnknownAvp(v) | DecodeError::InvalidOriginalAVPLength(v) | DecodeError::UnsupportedVendorId(v) | DecodeError::InvalidOffset(v) => Some(*v as u32),
-                    DecodeError::InvalidVersion(v) => Some(*v as u32),
-                    _ => None,
-                };
-                if let Some(v) = shows_number {
-                    if !contains_word(&txt, &format!("{}", v)) {
-                        ctx.violate("C20:render:number-missing", format!("{:?} renders as {:?} without its number", e, txt), J::obj(vec![("error", J::s(format!("{:?}", e))), ("rendered", J::s(txt.clone()))]));
-                    }
-                }
             }
             if idx % 8000 == 7 || x < 2 {
                 let e = DecodeError::IncompleteAVP(x);
